@@ -173,6 +173,15 @@ def wf_index(tree, nodes, *, expected_id=None, probe_ids=(), probe_data=(), id_o
             cnt("find_all(data_id)")
             if _idset(got) != _idset(want):
                 errs.append(f"find_all(data_id={d!r}) returns {got!r}, nodes carrying that id: {want!r}")
+            if not want and isinstance(got, list):
+                # ... also an empty one: what the caller puts into it must not show up in later lookups (of any id)
+                got.append("caller's own entry")
+                again = tree.find_all(data_id=d)
+                other = tree.find_all(data_id="another-absent-id")
+                cnt("find_all(absent id) after the caller extended the previous empty result")
+                if again or other:
+                    errs.append(f"after the caller appended to the empty list returned by find_all(data_id={d!r}), lookups of absent ids "
+                                f"return {again!r} / {other!r}")
             if len(want) > 1:
                 # the result belongs to the caller: emptying it must not change what the next lookup returns
                 got.clear()
